@@ -27,7 +27,7 @@ EXPLANATION = (
     "branch, download() declares len(data) and writes data; R8 multiplexer parameters reach the pack unchanged; R9 stores "
     "only into defined fields of a zero-initialised frame, pad byte 0; R10 response field extraction matches the validated "
     "response's layout; R11 upload() truncates exactly the entries whose type has a fixed-size codec; R12 stale responses "
-    "are flushed completely before every request. R14 no class-level mutable object is mutated in place by instances (each node/client/map/dictionary has its own state)."
+    "are flushed completely before every request. R14 [R15: ODVariable.__len__ gives every data type its width and is never 0 (shared with C04.R5)] no class-level mutable object is mutated in place by instances (each node/client/map/dictionary has its own state)."
 )
 ASSUMPTIONS = [
     "not decided: byte equality for every payload length and chunking; io.BufferedWriter/Reader/TextIOWrapper behaviour",
@@ -435,6 +435,9 @@ def _truncation(chk, repo, folder):
         chk.check(ff.is_form(c.value, "data[0:var_size]", "data[:var_size]") and ff.one_def("var_size") is not None and src(ff.one_def("var_size")) == "len(var) // 8", "R11",
                   f"{CL}:SdoClient.upload | leading bytes", f.loc(c), f"truncation is {src(c.value)} with var_size = {src(ff.one_def('var_size')) if ff.one_def('var_size') is not None else '?'}")
 
+    # ------------------------------------------------------------------ R15 ODVariable.__len__ per data type (upload truncation takes len(var) // 8 bytes; shared with C04.R5)
+    from . import c04 as _c04len
+    _c04len.bit_length_by_type(chk, "R15")
     # ------------------------------------------------------------------ R14 instances are independent (shared clause)
     from . import shared as _shared
     _shared.isolation(chk, "R14", rels=['canopen/sdo/client.py', 'canopen/sdo/base.py'])
